@@ -44,7 +44,11 @@ RULE = (
     "chosen on-line from the alphabet of coq/C02/Model.v with ~20% deliberately invalid calls (must raise on both sides, "
     "state unchanged); buckets: main (inside the theorem's domain), repeated_label (a label twice on one tensor), "
     "same_tensor_twice (one tensor object twice in one network). Non-trivial: the history contains a mutation through a "
-    "tensor shared by >=2 networks, or a Kill followed by a rename, or a clash-mangling combine."
+    "tensor shared by >=2 networks, or a Kill followed by a rename, or a clash-mangling combine. Selection arguments "
+    "draw 1-4 tags / 1-3 labels for all four `which` modes (ops and oracle). oset: random method sequences over 4 "
+    "quimb.utils.oset objects (add, discard, remove, clear, update, union, intersection(_update), difference(_update) "
+    "with 0-4 arguments, | & - and |= &= -=, popleft, popright/pop, copy, in, len, ==) vs the list model, compared "
+    "incl. iteration order; non-trivial = an n-ary call with >= 2 arguments."
 )
 
 WHICH = {"all": "WAll", "any": "WAny", "!all": "WNAll", "!any": "WNAny"}
@@ -202,7 +206,8 @@ def trace_coq(ops, obs):
 
 
 COQ_HEADER = (
-    "From Coq Require Import ZArith List Arith Bool.\nFrom QV Require Import C02.Model C02.Corr.\nImport ListNotations.\n"
+    "From Coq Require Import ZArith List Arith Bool.\nFrom QV Require Import C02.Model C02.Corr C02.OSet C02.OCorr.\n"
+    "Import ListNotations.\n"
 )
 
 
@@ -566,7 +571,7 @@ def scan_select(tn, tags, which):
 # on-line generator
 
 
-def pick_tags(rng, pool, kmax=2):
+def pick_tags(rng, pool, kmax=4):
     pool = list(pool)
     if not pool:
         return None
@@ -651,7 +656,7 @@ class Gen:
     def g_new_tensor(self):
         rng = self.rng
         k = rng.choice([1, 2, 2, 3, 3])
-        return ("NewTensor", self.fresh_inds(k), rng.sample(range(NTAG), rng.randint(0, 2)))
+        return ("NewTensor", self.fresh_inds(k), rng.sample(range(NTAG), rng.choice([0, 1, 2, 2, 3, 3, 4])))
 
     def g_tcopy(self):
         return ("TCopy", self.rng.randrange(len(self.W.T)), self.rng.randrange(3))
@@ -784,7 +789,7 @@ class Gen:
     def g_tmodtags(self):
         k = self.shared_handle()
         rng = self.rng
-        return ("TModTags", k, [rng.randrange(NTAG) for _ in range(rng.randint(0, 3))])
+        return ("TModTags", k, [rng.randrange(NTAG) for _ in range(rng.randint(0, 4))])
 
     def rand_map(self, keys_pool, vals_pool, kmax=2):
         rng = self.rng
@@ -812,7 +817,7 @@ class Gen:
 
     def g_taddtag(self):
         rng = self.rng
-        return ("TAddTag", self.shared_handle(), [rng.randrange(NTAG) for _ in range(rng.choice([1, 1, 2]))])
+        return ("TAddTag", self.shared_handle(), [rng.randrange(NTAG) for _ in range(rng.choice([1, 1, 2, 3]))])
 
     def g_tdroptags(self):
         rng = self.rng
@@ -971,6 +976,58 @@ def violation_key(what, W):
     return f"{what}:{cond}"
 
 
+def scan_select_inds(tn, inds, which):
+    inverse = which[0] == "!"
+    w = which[1:] if inverse else which
+    hit = []
+    for tid, t in tn.tensor_map.items():
+        has = [ix in t.inds for ix in inds]
+        if (all(has) if w == "all" else any(has)) and inds:
+            hit.append(tid)
+    if inverse:
+        return [tid for tid in tn.tensor_map if tid not in hit]
+    return hit
+
+
+def check_selection_multi(W, problems, rng):
+    """1-4 tags and 1-3 labels, all four `which` modes, every selection spelling = scan"""
+    for j in W.live():
+        tn = W.N[j]
+        tags = list(tn.tag_map)
+        inds = list(tn.ind_map)
+        for _ in range(1):
+            if tags:
+                tg = rng.sample(tags, rng.randint(1, min(4, len(tags))))
+                wsel = rng.choice(["all", "all", "any", "!all", "!any"])
+                for w in ("all", "any", "!all", "!any"):
+                    want = sorted(scan_select(tn, tg, w))
+                    got = sorted(tn._get_tids_from_tags(tg, w))
+                    if got != want:
+                        problems.append(("select", j, f"_get_tids_from_tags({tg}, {w}) = {got}, scan {want}"))
+                        continue
+                    if w != wsel:
+                        continue
+                    if sorted(tn.select(tg, which=w).tensor_map) != want or \
+                            sorted(id(t) for t in tn.select_tensors(tg, which=w)) != sorted(id(tn.tensor_map[t]) for t in want):
+                        problems.append(("select", j, f"select / select_tensors({tg}, {w}) differ from the scan"))
+                want = scan_select(tn, tg, "all")
+                try:
+                    got = tn[tuple(tg)]
+                    got = got if isinstance(got, tuple) else (got,)
+                    if sorted(id(t) for t in got) != sorted(id(tn.tensor_map[t]) for t in want):
+                        problems.append(("select", j, f"tn[{tg}] differs from the scan"))
+                except KeyError:
+                    if want:
+                        problems.append(("select", j, f"tn[{tg}] raised KeyError but the scan finds {want}"))
+            if inds:
+                ix = rng.sample(inds, rng.randint(1, min(3, len(inds))))
+                for w in ("all", "any", "!all", "!any"):
+                    want = sorted(scan_select_inds(tn, ix, w))
+                    got = sorted(tn._get_tids_from_inds(ix, w))
+                    if got != want:
+                        problems.append(("select", j, f"_get_tids_from_inds({ix}, {w}) = {got}, scan {want}"))
+
+
 def check_selection(W, problems):
     """select / [] / select_neighbors = scan, on every live network"""
     for j in W.live():
@@ -1019,6 +1076,9 @@ def run_history(rng, mode, nops, fixed_ops=None, selection=True):
     ops, obs = [], []
     viol = None
     flags = {"shared_mutation": False, "kill_then_rename": False, "mangle": False, "invalid": 0, "killed": False}
+    import random as _random
+
+    sel_rng = _random.Random(12345)  # separate stream: the oracle's draws never disturb the generator
     with World() as W:
         gen = Gen(W, rng, mode)
         for step in range(nops):
@@ -1056,6 +1116,8 @@ def run_history(rng, mode, nops, fixed_ops=None, selection=True):
                     problems.append(("check", j, f"tn.check() raised {type(e).__name__}: {str(e)[:100]}"))
             if selection and not problems:
                 check_selection(W, problems)
+                if not problems:
+                    check_selection_multi(W, problems, sel_rng)
             ops.append(list(op))
             obs.append(o)
             if expect_invalid and ok:
@@ -1119,6 +1181,13 @@ def correspondence(ctx):
     maxops = ctx.n(30, 40)
     rng = ctx.rng
     cases, info = corpus_cases(ctx)
+    ocases, oinfo = [], {}
+    try:
+        ocases, oinfo = oset_stream(ctx)  # quimb.utils.oset vs the list model: same Coq run as the histories
+    except Exception as e:
+        import traceback
+
+        ctx.broken_obligation("stage:oset_stream", traceback.format_exc()[-2000:])
     for cid in range(1, nseq + 1):
         r = rng.random()
         mode = "main" if r < 0.7 else ("repeated" if r < 0.88 else "double")
@@ -1145,12 +1214,23 @@ def correspondence(ctx):
             ctx.bump("valid_call_raised")
         if viol is not None:
             report_violation(ctx, mode, ops, viol)
-    failed, errors = ctx.coq_cases("hist", COQ_HEADER, cases, shard=ctx.n(50, 100), jobs=8, timeout=1500)
+    # oset cases are small: spread them over the history shards (one Coq run)
+    allcases = list(cases)
+    step = max(1, len(cases) // max(1, len(ocases))) if ocases else 1
+    for k, oc in enumerate(ocases):
+        allcases.insert(min(len(allcases), k * (step + 1)), oc)
+    nshards = ctx.n(6, 16)
+    failed, errors = ctx.coq_cases("hist", COQ_HEADER, allcases, shard=-(-len(allcases) // nshards), jobs=8, timeout=1500)
     for path, err in errors:
         ctx.broken_obligation("correspondence:histories:" + path.split("/")[-1], err)
-    for c in failed[:4]:
+    hfailed = [c for c in failed if c < 200000]
+    ofailed = [c for c in failed if c >= 200000]
+    for c in hfailed[:4]:
         diagnose(ctx, c, info[c])
-    ctx.extra["histories_matching_model_state_by_state"] = len(cases) - len(failed)
+    for c in ofailed[:3]:
+        ctx.broken_obligation("correspondence:oset_model_vs_impl", {"ops": oinfo[c]["ops"]})
+    ctx.extra["histories_matching_model_state_by_state"] = len(cases) - len(hfailed)
+    ctx.extra["oset_sequences_matching_model"] = len(ocases) - len(ofailed)
 
 
 def report_violation(ctx, mode, ops, viol):
@@ -1250,7 +1330,7 @@ def run(ctx):
         "oracle on the implementation (test stream), plus C02_combine_renaming_partial for the renaming itself",
     ]
     ctx.check_props(["C02/Model.vo", "C02/Corr.vo", "C02/Lists.vo", "C02/Inv.vo", "C02/Inv2.vo", "C02/Inv3.vo", "C02/Inv4.vo",
-                     "C02/Struct.vo", "C02/Steps.vo", "C02/Step.vo", "C02/Final.vo", "C02/Combine.vo", "C02/Props.v"])
+                     "C02/Struct.vo", "C02/Steps.vo", "C02/Step.vo", "C02/Final.vo", "C02/Combine.vo", "C02/OSet.vo", "C02/OCorr.vo", "C02/Props.v"])
     ctx.stage(correspondence)
     ctx.stage(numeric_stream)
     ctx.stage(combine_stream)
@@ -1276,6 +1356,8 @@ def replay(ctx, path):
         ctx.stage(numeric_stream)
     elif rep.get("stream") == "combine":
         ctx.stage(combine_stream)
+    elif rep.get("stream") == "oset":
+        ctx.stage(oset_stream)
     else:
         run(ctx)
 
@@ -1552,3 +1634,230 @@ def combine_stream(ctx):
             ctx.violation("combine:" + ("view" if virtual else "copy"), problems[0][:300],
                           {"stream": "combine", "iteration": it, "virtual": virtual, "how": how,
                            "a": [list(v) for v in a_before.values()], "b": [list(v) for v in b_before.values()]})
+
+
+# ----------------------------------------------------------------------------
+# quimb.utils.oset against the list model of coq/C02/OSet.v
+
+
+def ref_oset_step(S, op):
+    """independent reference (plain lists): returns (ok, result); mutates S"""
+    n, a = op[0], op[1:]
+
+    def uniq(l):
+        return list(dict.fromkeys(l))
+
+    def val(x):
+        return S[x[1]] if x[0] == "R" else list(x[1])
+
+    if n == "ONew":
+        S[a[0]] = uniq(a[1])
+    elif n == "OCopy":
+        S[a[0]] = list(S[a[1]])
+    elif n == "OAdd":
+        if a[1] not in S[a[0]]:
+            S[a[0]] = S[a[0]] + [a[1]]
+    elif n == "ODiscard":
+        S[a[0]] = [x for x in S[a[0]] if x != a[1]]
+    elif n == "ORemove":
+        if a[1] not in S[a[0]]:
+            return False, 0
+        S[a[0]] = [x for x in S[a[0]] if x != a[1]]
+    elif n == "OClear":
+        S[a[0]] = []
+    elif n in ("OUpdate", "OUnion"):
+        d, r, args = (a[0], a[0], a[1]) if n == "OUpdate" else a
+        vals = [list(val(x)) for x in args]
+        out = list(S[r])
+        for v in vals:
+            for x in v:
+                if x not in out:
+                    out.append(x)
+        S[d] = out
+    elif n in ("OInterUpd", "OInter"):
+        d, r, args = (a[0], a[0], a[1]) if n == "OInterUpd" else a
+        if n == "OInterUpd" and not args:
+            return False, 0
+        vals = [list(S[k]) for k in args]
+        S[d] = [x for x in S[r] if all(x in v for v in vals)]
+    elif n in ("ODiffUpd", "ODiff"):
+        d, r, args = (a[0], a[0], a[1]) if n == "ODiffUpd" else a
+        if not args:
+            return False, 0
+        vals = [list(S[k]) for k in args]
+        S[d] = [x for x in S[r] if not any(x in v for v in vals)]
+    elif n == "OPopLeft":
+        if not S[a[0]]:
+            return False, 0
+        x = S[a[0]][0]
+        S[a[0]] = S[a[0]][1:]
+        return True, x
+    elif n == "OPopRight":
+        if not S[a[0]]:
+            return False, 0
+        x = S[a[0]][-1]
+        S[a[0]] = S[a[0]][:-1]
+        return True, x
+    elif n == "OContains":
+        return True, int(a[1] in S[a[0]])
+    elif n == "OLen":
+        return True, len(S[a[0]])
+    elif n == "OEq":
+        return True, int(set(S[a[0]]) == set(S[a[1]]))
+    else:
+        raise HarnessError(n)
+    return True, 0
+
+
+def impl_oset_step(R, op, sp):
+    """the same operation on quimb.utils.oset objects; `sp` selects a spelling"""
+    from quimb.utils import oset
+
+    n, a = op[0], op[1:]
+
+    def val(x):
+        return R[x[1]] if x[0] == "R" else (list(x[1]) if sp % 2 else tuple(x[1]))
+
+    try:
+        if n == "ONew":
+            R[a[0]] = oset(a[1])
+        elif n == "OCopy":
+            src = R[a[1]]
+            R[a[0]] = src.copy() if sp % 3 == 0 else (copy.deepcopy(src) if sp % 3 == 1 else oset.from_dict(src._d))
+        elif n == "OAdd":
+            R[a[0]].add(a[1])
+        elif n == "ODiscard":
+            R[a[0]].discard(a[1])
+        elif n == "ORemove":
+            R[a[0]].remove(a[1])
+        elif n == "OClear":
+            R[a[0]].clear()
+        elif n == "OUpdate":
+            vals = [val(x) for x in a[1]]
+            if len(vals) == 1 and sp % 2:
+                x = R[a[0]]
+                x |= vals[0]
+                if x is not R[a[0]]:
+                    raise HarnessError("|= did not return self")
+            else:
+                R[a[0]].update(*vals)
+        elif n == "OUnion":
+            vals = [val(x) for x in a[2]]
+            R[a[0]] = (R[a[1]] | vals[0]) if (len(vals) == 1 and sp % 2) else R[a[1]].union(*vals)
+        elif n == "OInterUpd":
+            vals = [R[k] for k in a[1]]
+            if len(vals) == 1 and sp % 2:
+                x = R[a[0]]
+                x &= vals[0]
+            else:
+                R[a[0]].intersection_update(*vals)
+        elif n == "OInter":
+            vals = [R[k] for k in a[2]]
+            R[a[0]] = (R[a[1]] & vals[0]) if (len(vals) == 1 and sp % 2) else R[a[1]].intersection(*vals)
+        elif n == "ODiffUpd":
+            vals = [R[k] for k in a[1]]
+            if len(vals) == 1 and sp % 2:
+                x = R[a[0]]
+                x -= vals[0]
+            else:
+                R[a[0]].difference_update(*vals)
+        elif n == "ODiff":
+            vals = [R[k] for k in a[2]]
+            R[a[0]] = (R[a[1]] - vals[0]) if (len(vals) == 1 and sp % 2) else R[a[1]].difference(*vals)
+        elif n == "OPopLeft":
+            return True, R[a[0]].popleft()
+        elif n == "OPopRight":
+            return True, (R[a[0]].popright() if sp % 2 else R[a[0]].pop())
+        elif n == "OContains":
+            return True, int(a[1] in R[a[0]])
+        elif n == "OLen":
+            return True, len(R[a[0]])
+        elif n == "OEq":
+            return True, int(R[a[0]] == R[a[1]]) if sp % 2 else int(not (R[a[0]] != R[a[1]]))
+        else:
+            raise HarnessError(n)
+    except HarnessError:
+        raise
+    except (KeyError, IndexError, StopIteration):
+        return False, 0
+    return True, 0
+
+
+def oop_coq(op):
+    n, a = op[0], op[1:]
+
+    def args(xs):
+        return "[" + "; ".join((f"AReg {x[1]}" if x[0] == "R" else f"ARaw {nl(x[1])}") for x in xs) + "]"
+
+    if n == "ONew":
+        return f"ONew {a[0]} {nl(a[1])}"
+    if n in ("OCopy", "OAdd", "ODiscard", "ORemove", "OContains", "OEq"):
+        return f"{n} {a[0]} {a[1]}"
+    if n in ("OClear", "OPopLeft", "OPopRight", "OLen"):
+        return f"{n} {a[0]}"
+    if n == "OUpdate":
+        return f"OUpdate {a[0]} {args(a[1])}"
+    if n == "OUnion":
+        return f"OUnion {a[0]} {a[1]} {args(a[2])}"
+    if n in ("OInterUpd", "ODiffUpd"):
+        return f"{n} {a[0]} {nl(a[1])}"
+    if n in ("OInter", "ODiff"):
+        return f"{n} {a[0]} {a[1]} {nl(a[2])}"
+    raise HarnessError(n)
+
+
+def gen_oop(rng):
+    r = lambda: rng.randrange(4)  # noqa: E731
+    x = lambda: rng.randrange(8)  # noqa: E731
+    regs = lambda lo: [r() for _ in range(rng.randint(lo, 4))]  # noqa: E731
+    kind = rng.choice(["ONew", "OCopy", "OAdd", "OAdd", "ODiscard", "ORemove", "OClear", "OUpdate", "OUpdate", "OUnion",
+                       "OUnion", "OInterUpd", "OInter", "OInter", "OInter", "ODiffUpd", "ODiff", "ODiff", "OPopLeft",
+                       "OPopRight", "OContains", "OLen", "OEq"])
+    if kind == "ONew":
+        return (kind, r(), [x() for _ in range(rng.randint(0, 6))])
+    if kind in ("OCopy", "OEq"):
+        return (kind, r(), r())
+    if kind in ("OAdd", "ODiscard", "ORemove", "OContains"):
+        return (kind, r(), x())
+    if kind in ("OClear", "OPopLeft", "OPopRight", "OLen"):
+        return (kind, r())
+    if kind in ("OUpdate", "OUnion"):
+        args = [("R", r()) if rng.random() < 0.6 else ("L", [x() for _ in range(rng.randint(0, 4))])
+                for _ in range(rng.randint(0, 4))]
+        return (kind, r(), args) if kind == "OUpdate" else (kind, r(), r(), args)
+    if kind in ("OInterUpd", "ODiffUpd"):
+        return (kind, r(), regs(0))
+    return (kind, r(), r(), regs(0))
+
+
+def oset_stream(ctx):
+    from quimb.utils import oset
+
+    rng = ctx.rng
+    cases, info = [], {}
+    for cid in range(200001, 200001 + ctx.n(100, 800)):
+        R = [oset() for _ in range(4)]
+        S = [[] for _ in range(4)]
+        ops, exp = [], []
+        for step in range(rng.randint(5, 24)):
+            op = gen_oop(rng)
+            sp = rng.randrange(6)
+            ok_i, res_i = impl_oset_step(R, op, sp)
+            ok_r, res_r = ref_oset_step(S, op)
+            ops.append(op)
+            got = [list(x) for x in R]
+            if any(len(set(g)) != len(g) for g in got):
+                raise HarnessError("oset iterates a key twice")
+            exp.append("0x%x" % fingerprint([int(ok_i), int(res_i)] + [v for g in got for v in [len(g)] + g]))
+            ctx.bump("oset:" + op[0])
+            arity = len(op[-1]) if isinstance(op[-1], list) and op[0] not in ("ONew",) else None
+            ctx.count(("oset", cid, step), arity is not None and arity >= 2)
+            if (ok_i, res_i, got) != (ok_r, res_r, S):
+                key = "oset:" + op[0] + (":nary" if arity is not None and arity >= 2 else "")
+                ctx.violation(key, f"oset {op[0]} with {arity} argument(s): implementation gives ok={ok_i} result={res_i} "
+                                   f"{got}, ordered-set reference gives ok={ok_r} result={res_r} {S}"[:400],
+                              {"stream": "oset", "ops": jsonable_ops(ops), "spelling": sp})
+                break
+        info[cid] = {"ops": ops}
+        cases.append((cid, "(ocheck [" + "; ".join(oop_coq(o) for o in ops) + "]%nat [" + "; ".join(exp) + "]%Z)"))
+    return cases, info
